@@ -630,9 +630,64 @@ def _large(p):
             got = _xy(C.centre_of_gravity(img.copy()[None])).reshape(2)
             o.close("single_pixel_location_large", _err(got, want), 1e-9, sub="cogNd:%dx%d:(%d,%d)" % (shape + (py, px)))
             o.stat("lib_calls", 2)
+        # bright counts near the top of every integer dtype, far from the origin (index x value exceeds the dtype)
+        for dt in ("int16", "uint16", "int32", "uint32", "int64", "float32"):
+            info = numpy.iinfo(dt) if numpy.dtype(dt).kind in "iu" else None
+            val = min(int(info.max) // 2, 2 ** 40) if info else 3.0e7
+            img = numpy.zeros(shape, dtype=dt)
+            py, px = shape[0] - 3, shape[1] - 2
+            img[py, px] = val
+            want = numpy.array([px, py], dtype=float)
+            for nm_, f in (("cog", lambda a: C.centre_of_gravity(a)), ("cogNd", lambda a: C.centre_of_gravity(a[None])),
+                           ("bp", lambda a: C.brightest_pixel(a, 0.5)), ("bpNd", lambda a: C.brightest_pixel(a[None], 0.5))):
+                got = _xy(f(img.copy())).reshape(2)
+                o.close("single_pixel_location_large", _err(got, want), 1e-6 if dt == "float32" else 1e-9,
+                        sub="%s:%dx%d:%s:bright" % ((nm_,) + shape + (dt,)))
+                o.stat("lib_calls", 1)
         dense = numpy.fromfunction(lambda a, b: ((a * 7 + b * 3) % 11 + 1.0) * ((a - 30) ** 2 + (b - 30) ** 2 < 100), shape)
         c0 = _xy(C.centre_of_gravity(dense.copy())).reshape(2)
         c1 = _xy(C.centre_of_gravity(numpy.roll(numpy.roll(dense, 9, 0), 17, 1))).reshape(2)
         o.close("shift_equivariance_large", _err(c1 - c0, numpy.array([17.0, 9.0])), 1e-9, sub="%dx%d" % shape)
         o.stat("lib_calls", 2)
+    # stacks with two and three leading axes (a grid of sub-apertures per exposure), every frame different
+    for lead in ((3, 3), (2, 3), (4, 4), (2, 2, 3)):
+        nfr = int(numpy.prod(lead))
+        st = numpy.array([numpy.roll(numpy.roll(base, (2 * k) % 9, 0), (k // 2) % 7, 1) * (1 + 0.13 * k) + (k % 3) for k in range(nfr)])
+        st = st.reshape(lead + base.shape)
+        ref = base.copy()
+        fns = {"cog": lambda a: C.centre_of_gravity(a.copy()), "cog_thr0.3": lambda a: C.centre_of_gravity(a.copy(), threshold=0.3),
+               "cog_thr0.1": lambda a: C.centre_of_gravity(a.copy(), threshold=0.1),
+               "bp0.3": lambda a: C.brightest_pixel(a.copy(), 0.3),
+               "corr": lambda a: C.correlation_centroid(a.copy(), ref.copy(), padding=2)}
+        for name, f in fns.items():
+            if name == "corr" and len(lead) > 1:
+                continue           # the correlation centroider is documented for one leading axis
+            try:
+                full = _xy(f(st))
+            except Exception as e:
+                o.check("stack_equals_frames_grid", False, sub="%s:lead=%s" % (name, lead), detail="%s: %s" % (type(e).__name__, str(e)[:200]))
+                continue
+            o.stat("lib_calls", 1 + nfr)
+            if full.shape != (2,) + lead:
+                o.check("stack_equals_frames_grid", False, sub="%s:lead=%s" % (name, lead), detail="shape %s" % (full.shape,))
+                continue
+            singles = numpy.array([_xy(f(st[idx])).reshape(2) for idx in numpy.ndindex(*lead)]).T.reshape((2,) + lead)
+            o.close("stack_equals_frames_grid", _err(full, singles), 1e-9, sub="%s:lead=%s" % (name, lead))
+    # call histories on caller-owned arrays: the image and the reference handed over again after an in-place edit
+    from mc import variants
+    im = numpy.roll(base, 2, 0) * 1.5 + 1.0
+    roll_ = lambda a: a.__setitem__(Ellipsis, numpy.roll(numpy.roll(a, 2, -2), 1, -1) * 1.25)
+    k = 0
+    for pad in (1, 2):
+        k += variants.check_reuse(o, "reference", lambda r: _xy(C.correlation_centroid(im.copy(), r, padding=pad)), base, 1e-12,
+                                  sub="corr:pad=%d" % pad, mutate=roll_)
+        k += variants.check_reuse(o, "image", lambda a: _xy(C.correlation_centroid(a, base.copy(), padding=pad)), im, 1e-12,
+                                  sub="corr:pad=%d" % pad, mutate=roll_)
+        k += variants.check_reuse(o, "reference", lambda r: numpy.asarray(C.cross_correlate(im.copy(), r, padding=pad)), base, 1e-12,
+                                  sub="xcorr:pad=%d" % pad, mutate=roll_)
+    for name, f in (("cog", lambda a: _xy(C.centre_of_gravity(a))), ("cog_thr", lambda a: _xy(C.centre_of_gravity(a, threshold=0.3))),
+                    ("bp", lambda a: _xy(C.brightest_pixel(a, 0.3)))):
+        k += variants.check_reuse(o, "image", f, im, 1e-12, sub=name, mutate=roll_)
+        k += variants.check_reuse(o, "image", f, numpy.array([im, base, im * 2]), 1e-12, sub=name + ":stack", mutate=roll_)
+    o.stat("lib_calls", k)
     return o
